@@ -608,6 +608,10 @@ func (m *Machine) setupModels() {
 			return nil
 		}
 		st := (*p.P).(Struct)
+		if _, twice := m.released[p.P]; twice {
+			// the pool would hand the same buffer to two owners
+			m.violate("pool-double-put", "concrete", "a buffer is handed to Put twice")
+		}
 		why := fmt.Sprintf("buffer released by Put #%d", len(m.released))
 		m.released[p.P] = why
 		for i := range st {
